@@ -987,6 +987,15 @@ impl<'a> Session<'a> {
                         self.inb.add_plutus_script_input(&pw, &input, &val);
                         Res::Ok
                     };
+                    if r.is_ok() {
+                        // the same input handed over again with another redeemer (a correction): the later witness replaces the earlier one
+                        let p = Purpose::Spend(outpoint.0.clone(), outpoint.1);
+                        for a in self.h.attaches.iter_mut() {
+                            if a.purpose == p {
+                                a.live = false;
+                            }
+                        }
+                    }
                     self.h.attaches.push(Attach { op: idx, red: wit.red, purpose: Purpose::Spend(outpoint.0, outpoint.1), script: wit.script, live: r.is_ok() });
                     if !r.is_ok() {
                         return r;
